@@ -8,6 +8,8 @@ package main
 import (
 	"encoding/base64"
 	"encoding/json"
+	"io"
+	"log/slog"
 	"fmt"
 	"net/http"
 	"net/http/httptest"
@@ -33,8 +35,13 @@ var (
 	routerN   = []string{"RProvider", "RLegacy"}
 	endpointN = []string{"EToken", "EIntrospect", "ERevoke", "EDeviceAuthz"}
 	endpointT = []string{"token", "introspect", "revoke", "device_authz"}
-	methN     = []string{"MBasic", "MPost", "MPKJWT", "MNone"}
-	methV     = []oidc.AuthMethod{oidc.AuthMethodBasic, oidc.AuthMethodPost, oidc.AuthMethodPrivateKeyJWT, oidc.AuthMethodNone}
+	methN     = []string{"MBasic", "MPost", "MPKJWT", "MNone", "MOther"}
+	methV     = []oidc.AuthMethod{oidc.AuthMethodBasic, oidc.AuthMethodPost, oidc.AuthMethodPrivateKeyJWT, oidc.AuthMethodNone, ""}
+	// MOther: values of Client.AuthMethod() outside the library's four constants (the client has a stored secret)
+	methOther = []struct{ Name, V string }{{"unset", ""}, {"client_secret_jwt", "client_secret_jwt"}, {"tls_client_auth", "tls_client_auth"},
+		{"self_signed_tls_client_auth", "self_signed_tls_client_auth"}, {"unknown", "some_unknown_method"}, {"None_titlecase", "None"}, {"NONE_upper", "NONE"},
+		{"none_trail_sp", "none "}, {"null", "null"}, {"Private_Key_JWT", "Private_Key_JWT"}, {"CLIENT_SECRET_POST", "CLIENT_SECRET_POST"},
+		{"client_secret_basic_trail_sp", "client_secret_basic "}, {"public", "public"}}
 	appN      = []string{"AWeb", "ANative", "AUserAgent"}
 	appV      = []op.ApplicationType{op.ApplicationTypeWeb, op.ApplicationTypeNative, op.ApplicationTypeUserAgent}
 	grantN    = []string{"GCode", "GRefresh", "GCC", "GBearer", "GTE", "GDevice", "GImplicit", "GUnknown", "GMissing"}
@@ -42,7 +49,7 @@ var (
 		string(oidc.GrantTypeTokenExchange), string(oidc.GrantTypeDeviceCode), "implicit", "password", ""}
 	grantT = []string{"code", "refresh", "client_credentials", "jwt_bearer", "token_exchange", "device_code", "implicit", "unknown", "missing"}
 	secN   = []string{"SRight", "SWrong", "SEmpty", "SBlank", "SNear"}
-	assN   = []string{"AOk", "AWrongKey", "AWrongAud"}
+	assN   = []string{"AOk", "AWrongKey", "AWrongAud", "AJunk"}
 )
 
 const (
@@ -81,6 +88,7 @@ const (
 	pAssertWrongType // valid client_assertion, another client_assertion_type
 	// a near miss of X's id (surrounding white space, other case, ...) with a secret, in the Basic header or in the form
 	pNearID
+	pAssertID // client_id=X + client_assertion + client_assertion_type
 )
 
 const (
@@ -148,6 +156,9 @@ var audForms = append([]strForm{{"other", lit("https://other.example.com")}}, ne
 var atypeForms = []strForm{{"saml2", lit("urn:ietf:params:oauth:client-assertion-type:saml2-bearer")}, {"upper", strings.ToUpper},
 	{"trail_sp", func(r string) string { return r + " " }}, {"lead_sp", func(r string) string { return " " + r }}, {"drop_last", func(r string) string { return r[:len(r)-1] }}}
 
+// client_assertion values that are not a JWT
+var junkForms = []string{"junk", "x", "null", "a.b.c", "e30.e30.", "eyJhbGciOiJub25lIn0.e30.", " "}
+
 func formsOf(kind int) []strForm {
 	switch kind {
 	case sWrong:
@@ -209,11 +220,15 @@ func (p plT) coq() string {
 	return emit.Ctor("mkPl", gplaceN[p.Grant], placeN[p.Client], placeN[p.Art])
 }
 
-type cfgT struct{ Post, PKJWT, Refresh, CC, TE, Dev bool }
+type cfgT struct {
+	Post, PKJWT, Refresh, CC, TE, Dev bool
+	NoJP                                bool // the provider object handed to NewLegacyServer hides the optional method JWTProfileVerifier
+}
 
 type regT struct {
 	Known  bool
 	Meth   int
+	MV     int // Meth == 4: which value outside the four constants AuthMethod() returns (index modulo methOther)
 	App    int
 	Grants [7]bool // registered grant types, indexed like grantV[0..6]
 	HasKey bool
@@ -232,7 +247,7 @@ type presT struct {
 	IDF   int  // pNearID: concrete form of the id (index modulo idForms)
 	BadID bool // malformed escape sits in the id part (else in the secret)
 	A     int  // assertion kind
-	VM    int  // cross-client kinds: auth method the second client Y is registered with
+	VM    int  // cross-client kinds: auth method the second client Y is registered with (0..4, 4 = a value outside the constants)
 	VG    bool // ... and whether Y is registered for every grant (else for none)
 }
 
@@ -252,7 +267,7 @@ type caseT struct {
 }
 
 func (c cfgT) coq() string {
-	return emit.Ctor("mkCfg", emit.Bool(c.Post), emit.Bool(c.PKJWT), emit.Bool(c.Refresh), emit.Bool(c.CC), emit.Bool(c.TE), emit.Bool(c.Dev))
+	return emit.Ctor("mkCfg", emit.Bool(c.Post), emit.Bool(c.PKJWT), emit.Bool(c.Refresh), emit.Bool(c.CC), emit.Bool(c.TE), emit.Bool(c.Dev), emit.Bool(!c.NoJP))
 }
 func (r regT) coq() string {
 	var gs []string
@@ -277,6 +292,8 @@ func (p presT) coq() string {
 		return emit.Ctor("PPost", secN[p.P])
 	case pAssert:
 		return emit.Ctor("PAssert", assN[p.A])
+	case pAssertID:
+		return emit.Ctor("PAssertId", assN[p.A])
 	case pBoth:
 		return emit.Ctor("PBoth", secN[p.B], secN[p.P])
 	case pAssertTypeOnly, pAssertNoType, pAssertWrongType:
@@ -306,6 +323,8 @@ func (p presT) tag() string {
 		return "post_" + strings.ToLower(secN[p.P][1:])
 	case pAssert:
 		return "assertion_" + strings.ToLower(assN[p.A][1:])
+	case pAssertID:
+		return "id_and_assertion_" + strings.ToLower(assN[p.A][1:])
 	case pXBasic, pXAssert, pXPost, pXPostID, pXDup:
 		return crossT[p.Kind]
 	case pAssertTypeOnly, pAssertNoType, pAssertWrongType:
@@ -340,7 +359,7 @@ func (p presT) formTags() []string {
 	if p.Kind == pNearID {
 		t = append(t, "id_form="+idForms[p.IDF%len(idForms)].Name)
 	}
-	if p.Kind == pAssert && p.A == 2 {
+	if (p.Kind == pAssert || p.Kind == pAssertID) && p.A == 2 {
 		t = append(t, "aud_form="+audForms[p.AF%len(audForms)].Name)
 	}
 	if p.Kind == pAssertWrongType {
@@ -367,7 +386,10 @@ func (c caseT) tags() []string {
 		"meth=" + strings.ToLower(methN[c.Reg.Meth][1:]), "app=" + strings.ToLower(appN[c.Reg.App][1:]),
 		"pres=" + c.Pres.tag(), "known=" + onoff(c.Reg.Known), "key=" + onoff(c.Reg.HasKey),
 		"post=" + onoff(c.Cfg.Post), "pkjwt=" + onoff(c.Cfg.PKJWT), "refresh=" + onoff(c.Cfg.Refresh),
-		"cc=" + onoff(c.Cfg.CC), "te=" + onoff(c.Cfg.TE), "dev=" + onoff(c.Cfg.Dev)}
+		"cc=" + onoff(c.Cfg.CC), "te=" + onoff(c.Cfg.TE), "dev=" + onoff(c.Cfg.Dev), "jwtprofile_method=" + onoff(!c.Cfg.NoJP)}
+	if c.Reg.Meth == 4 {
+		t = append(t, "meth_value="+methOther[c.Reg.MV%len(methOther)].Name)
+	}
 	if c.Endpoint == eToken {
 		t = append(t, "grant="+grantT[c.Grant])
 		if c.Grant < 7 {
@@ -382,7 +404,7 @@ func (c caseT) tags() []string {
 	}
 	t = append(t, "prev="+prevT[c.Prev])
 	t = append(t, c.Pres.formTags()...)
-	if c.Reg.Meth < 2 {
+	if hasStoredSecret(c.Reg.Meth) {
 		t = append(t, "stored_secret="+secKindT[c.SecKind])
 	}
 	if c.Endpoint == eToken && c.Grant == gUnknown && c.GForm > 0 {
@@ -403,6 +425,28 @@ type world struct {
 	f  *opfix.Fixture
 	st *refstore.Store
 	n  int
+	// the LegacyServer router over a provider object that hides every optional method the LegacyServer type-asserts on
+	// its provider (JWTProfileVerifier: interfaces ClientJWTProfile and JWTAuthorizationGrantExchanger)
+	legacyBare http.Handler
+}
+
+// bareProvider embeds the OpenIDProvider interface: only its methods are visible, not the optional ones of *op.Provider
+type bareProvider struct{ op.OpenIDProvider }
+
+func hasStoredSecret(meth int) bool { return meth == 0 || meth == 1 || meth == 4 }
+
+func authMethodOf(meth, mv int) oidc.AuthMethod {
+	if meth == 4 {
+		return oidc.AuthMethod(methOther[mv%len(methOther)].V)
+	}
+	return methV[meth]
+}
+
+func (w *world) handler(c caseT) http.Handler {
+	if c.Router == 1 && c.Cfg.NoJP {
+		return w.legacyBare
+	}
+	return w.f.Handlers[c.Router]
 }
 
 var worlds = map[cfgT]*world{}
@@ -410,6 +454,7 @@ var worlds = map[cfgT]*world{}
 var primerFailed int // primer requests that were not answered active:true (must stay 0)
 
 func worldOf(c cfgT) *world {
+	c.NoJP = false // one fixture serves both
 	if w, ok := worlds[c]; ok {
 		return w
 	}
@@ -421,6 +466,12 @@ func worldOf(c cfgT) *world {
 		os.Exit(2)
 	}
 	w := &world{f: f, st: st}
+	if _, has := any(bareProvider{f.Provider}).(op.ClientJWTProfile); has {
+		fmt.Fprintln(os.Stderr, "fixture: the wrapper does not hide JWTProfileVerifier")
+		os.Exit(2)
+	}
+	w.legacyBare = op.RegisterLegacyServer(op.NewLegacyServer(bareProvider{f.Provider}, *op.DefaultEndpoints), op.AuthorizeCallbackHandler(f.Provider),
+		op.WithFallbackLogger(slog.New(slog.NewTextHandler(io.Discard, nil))))
 	worlds[c] = w
 	return w
 }
@@ -507,7 +558,7 @@ func run(c caseT) outcome {
 	w.n++
 	st := w.st
 	id := fmt.Sprintf("cks%d", w.n) // has letters with Unicode case-fold twins
-	hasSecret := c.Reg.Meth == 0 || c.Reg.Meth == 1
+	hasSecret := hasStoredSecret(c.Reg.Meth)
 	secret := storedSecret(id, c.SecKind)
 	stored := secret
 	if !hasSecret {
@@ -525,9 +576,9 @@ func run(c caseT) outcome {
 	owner := id
 	if cross {
 		owner = vid
-		v := &refstore.Client{ID: vid, Secret: "sec-" + vid, Redirects: []string{redirectURI}, App: op.ApplicationTypeWeb, Auth: methV[c.Pres.VM],
+		v := &refstore.Client{ID: vid, Secret: "sec-" + vid, Redirects: []string{redirectURI}, App: op.ApplicationTypeWeb, Auth: authMethodOf(c.Pres.VM, c.Pres.IDF),
 			RespTypes: []oidc.ResponseType{oidc.ResponseTypeCode}, ATType: op.AccessTokenTypeBearer}
-		if c.Pres.VM >= 2 {
+		if !hasStoredSecret(c.Pres.VM) {
 			v.Secret = ""
 		}
 		if c.Pres.VM == 2 {
@@ -539,7 +590,7 @@ func run(c caseT) outcome {
 		st.Clients[vid] = v
 	}
 	if c.Reg.Known {
-		cl := &refstore.Client{ID: id, Secret: stored, Redirects: []string{redirectURI}, App: appV[c.Reg.App], Auth: methV[c.Reg.Meth],
+		cl := &refstore.Client{ID: id, Secret: stored, Redirects: []string{redirectURI}, App: appV[c.Reg.App], Auth: authMethodOf(c.Reg.Meth, c.Reg.MV),
 			RespTypes: []oidc.ResponseType{oidc.ResponseTypeCode}, ATType: op.AccessTokenTypeBearer}
 		for i, b := range c.Reg.Grants {
 			if b {
@@ -667,9 +718,14 @@ func run(c caseT) outcome {
 			cform.Set("client_assertion_type", oidc.ClientAssertionTypeJWTAssertion)
 			cform.Set("client_assertion", signAssertion(rightKey, sentID, []string{opfix.Issuer}))
 		}
-	case pAssert:
+	case pAssert, pAssertID:
+		if c.Pres.Kind == pAssertID {
+			cform.Set("client_id", id)
+		}
 		cform.Set("client_assertion_type", oidc.ClientAssertionTypeJWTAssertion)
 		switch c.Pres.A {
+		case 3:
+			cform.Set("client_assertion", junkForms[c.Pres.AF%len(junkForms)])
 		case 0:
 			cform.Set("client_assertion", signAssertion(rightKey, id, []string{opfix.Issuer}))
 		case 1:
@@ -814,7 +870,7 @@ func run(c caseT) outcome {
 			pf.Set("client_secret", "sec-"+pid)
 			rq = preq()
 		}
-		pr := opfix.Do(w.f.Handlers[c.Router], rq)
+		pr := opfix.Do(w.handler(c), rq)
 		if c.Prev == 3 && c.Router == 0 {
 			// the Provider router's introspection reads no form secret: that primer is refused, by design
 		} else if b, _ := pr.JSON["active"].(bool); !b {
@@ -831,7 +887,7 @@ func run(c caseT) outcome {
 		}
 		var basic []string
 		switch c.Reg.Meth {
-		case 0:
+		case 0, 4:
 			basic = []string{url.QueryEscape(id), url.QueryEscape(secret)}
 		case 1:
 			pf.Set("client_id", id)
@@ -847,7 +903,7 @@ func run(c caseT) outcome {
 		if basic != nil {
 			rq.SetBasicAuth(basic[0], basic[1])
 		}
-		pr := opfix.Do(w.f.Handlers[c.Router], rq)
+		pr := opfix.Do(w.handler(c), rq)
 		selfPrimers++
 		if pr.Status >= 200 && pr.Status < 300 {
 			selfPrimerOK++
@@ -861,7 +917,7 @@ func run(c caseT) outcome {
 	for dcode := range st.Devices {
 		devicesBefore[dcode] = true
 	}
-	resp := opfix.Do(w.f.Handlers[c.Router], req)
+	resp := opfix.Do(w.handler(c), req)
 
 	o := outcome{Status: resp.Status, Panic: resp.Panic, Writes: resp.Writes, Body: resp.Body}
 	if len(o.Body) > 160 {
@@ -908,7 +964,7 @@ func run(c caseT) outcome {
 				if basic != nil {
 					rq.SetBasicAuth(basic[0], basic[1])
 				}
-				pr := opfix.Do(w.f.Handlers[c.Router], rq)
+				pr := opfix.Do(w.handler(c), rq)
 				t, _ := pr.JSON["access_token"].(string)
 				return pr.Status == 200 && t != ""
 			}
@@ -916,7 +972,7 @@ func run(c caseT) outcome {
 				o.PollOther = poll(url.Values{"client_id": {vid}}, nil)
 			}
 			switch c.Reg.Meth {
-			case 0:
+			case 0, 4:
 				o.PollSelf = poll(url.Values{}, []string{url.QueryEscape(id), url.QueryEscape(secret)})
 			case 1:
 				o.PollSelf = poll(url.Values{"client_id": {id}, "client_secret": {secret}}, nil)
@@ -1000,8 +1056,8 @@ func allPres() []presT {
 	}
 	ps = append(ps, presT{Kind: pNearID, Slot: 2, B: sEmpty})
 	ps = append(ps, presT{Kind: pAssertTypeOnly}, presT{Kind: pAssertNoType}, presT{Kind: pAssertWrongType})
-	for a := 0; a < 3; a++ {
-		ps = append(ps, presT{Kind: pAssert, A: a})
+	for a := 0; a < 4; a++ {
+		ps = append(ps, presT{Kind: pAssert, A: a}, presT{Kind: pAssertID, A: a})
 	}
 	return ps
 }
@@ -1031,7 +1087,7 @@ func drawForms(r drv.Rand, p presT) presT {
 // drawPres: one of the single-client presentations or (1 in 4) a cross-client one
 func drawPres(r drv.Rand) presT {
 	if r.Chance(1, 4) {
-		return presT{Kind: drv.Pick(r, crossKinds), VM: r.IntN(4), VG: r.Bool()}
+		return presT{Kind: drv.Pick(r, crossKinds), VM: r.IntN(5), VG: r.Bool(), IDF: r.IntN(64)}
 	}
 	return drawForms(r, drv.Pick(r, allPres()))
 }
@@ -1062,7 +1118,7 @@ func drawPl(r drv.Rand) plT {
 func bits(n, k int) bool { return n>>k&1 == 1 }
 
 func cfgOf(n int) cfgT {
-	return cfgT{Post: bits(n, 0), PKJWT: bits(n, 1), Refresh: bits(n, 2), CC: bits(n, 3), TE: bits(n, 4), Dev: bits(n, 5)}
+	return cfgT{Post: bits(n, 0), PKJWT: bits(n, 1), Refresh: bits(n, 2), CC: bits(n, 3), TE: bits(n, 4), Dev: bits(n, 5), NoJP: bits(n, 6)}
 }
 
 // grantOf(endpoint, grant): the grant whose registration matters for the case (-1: none)
@@ -1099,9 +1155,9 @@ func randomCase(r drv.Rand) caseT {
 	}
 	c.SecKind = drawSecKind(r)
 	// mostly-on configuration, each switch off with probability 1/4
-	c.Cfg = cfgT{!r.Chance(1, 4), !r.Chance(1, 4), !r.Chance(1, 4), !r.Chance(1, 4), !r.Chance(1, 4), !r.Chance(1, 4)}
+	c.Cfg = cfgT{!r.Chance(1, 4), !r.Chance(1, 4), !r.Chance(1, 4), !r.Chance(1, 4), !r.Chance(1, 4), !r.Chance(1, 4), r.Chance(1, 4)}
 	c.Reg.Known = !r.Chance(1, 10)
-	c.Reg.Meth = r.IntN(4)
+	c.Reg.Meth, c.Reg.MV = r.IntN(5), r.IntN(64)
 	c.Reg.App = r.IntN(3)
 	for i := range c.Reg.Grants {
 		c.Reg.Grants[i] = r.Bool()
@@ -1121,7 +1177,7 @@ func randomCase(r drv.Rand) caseT {
 	}
 	if r.Bool() {
 		switch c.Reg.Meth {
-		case 0:
+		case 0, 4:
 			c.Pres = drawForms(r, presT{Kind: pBasic, Pct: r.Bool()})
 		case 1:
 			c.Pres = drawForms(r, drv.Pick(r, []presT{{Kind: pPost}, {Kind: pBasic}}))
@@ -1147,7 +1203,7 @@ func full(grants ...int) [7]bool {
 
 // directed cases: the inputs of the defects this check found (kept so they are reported again if they return)
 func directed() []caseT {
-	allOn := cfgT{true, true, true, true, true, true}
+	allOn := cfgT{true, true, true, true, true, true, false}
 	web := func(m int, gr [7]bool) regT { return regT{Known: true, Meth: m, App: 0, Grants: gr, HasKey: m == 2} }
 	var cs []caseT
 	// F03: malformed escape in the Basic header, the five legacy grant handlers of the Provider router
@@ -1185,18 +1241,20 @@ func directed() []caseT {
 // (2) every router x endpoint/grant x cross-client presentation x auth method of the second client, for a basic and a
 // private_key_jwt client X; (3) every router x endpoint/grant x placement of grant_type / client parameters / artefact.
 func systematic() []caseT {
-	allOn := cfgT{true, true, true, true, true, true}
+	allOn := cfgT{true, true, true, true, true, true, false}
 	var cs []caseT
 	rot := 0 // rotates through the concrete near-miss forms
 	type eg struct{ e, g int }
 	egs := []eg{{eToken, gCode}, {eToken, gRefresh}, {eToken, gCC}, {eToken, gBearer}, {eToken, gTE}, {eToken, gDevice},
 		{eIntrospect, gMissing}, {eRevoke, gMissing}, {eDeviceAuthz, gMissing}}
-	fitting := []presT{{Kind: pBasic}, {Kind: pPost}, {Kind: pAssert}, {Kind: pIDOnly}}
+	fitting := []presT{{Kind: pBasic}, {Kind: pPost}, {Kind: pAssert}, {Kind: pIDOnly}, {Kind: pBasic}}
+	mv := 0 // rotates through the AuthMethod() values outside the four constants
 	for router := 0; router < 2; router++ {
 		for _, x := range egs {
-			for meth := 0; meth < 4; meth++ {
+			for meth := 0; meth < 5; meth++ {
 				for app := 0; app < 3; app++ {
-					rg := regT{Known: true, Meth: meth, App: app, Grants: full(), HasKey: meth == 2}
+					mv++
+					rg := regT{Known: true, Meth: meth, MV: mv, App: app, Grants: full(), HasKey: meth == 2}
 					cs = append(cs, caseT{Router: router, Endpoint: x.e, Grant: x.g, Cfg: allOn, Reg: rg, Pres: fitting[meth], Tag: "block=method_x_app"})
 					if meth != 3 {
 						cs = append(cs, caseT{Router: router, Endpoint: x.e, Grant: x.g, Cfg: allOn, Reg: rg, Pres: presT{Kind: pIDOnly}, Tag: "block=method_x_app"})
@@ -1205,8 +1263,9 @@ func systematic() []caseT {
 			}
 			// (1b) every auth method with its fitting credential against: the grant at stake not registered; its provider flag /
 			// storage capability off; the flag of the client's own method off; the client's key missing
-			for meth := 0; meth < 4; meth++ {
-				base := regT{Known: true, Meth: meth, App: 0, Grants: full(), HasKey: meth == 2}
+			for meth := 0; meth < 5; meth++ {
+				mv++
+				base := regT{Known: true, Meth: meth, MV: mv, App: 0, Grants: full(), HasKey: meth == 2}
 				blk := func(cf cfgT, rg regT) {
 					cs = append(cs, caseT{Router: router, Endpoint: x.e, Grant: x.g, Cfg: cf, Reg: rg, Pres: fitting[meth], Tag: "block=method_x_refusal"})
 				}
@@ -1247,10 +1306,10 @@ func systematic() []caseT {
 			}
 			for _, k := range crossKinds {
 				for _, meth := range []int{0, 2} {
-					for vm := 0; vm < 4; vm++ {
+					for vm := 0; vm < 5; vm++ {
 						for _, vg := range []bool{true, false} {
 							rg := regT{Known: true, Meth: meth, App: 0, Grants: full(), HasKey: true}
-							cs = append(cs, caseT{Router: router, Endpoint: x.e, Grant: x.g, Cfg: allOn, Reg: rg, Pres: presT{Kind: k, VM: vm, VG: vg}, Tag: "block=cross_client"})
+							cs = append(cs, caseT{Router: router, Endpoint: x.e, Grant: x.g, Cfg: allOn, Reg: rg, Pres: presT{Kind: k, VM: vm, VG: vg, IDF: len(cs)}, Tag: "block=cross_client"})
 						}
 					}
 				}
@@ -1282,8 +1341,9 @@ func systematic() []caseT {
 			// is white space only, a near miss of the right secret (accept side: must be refused like any wrong secret), a
 			// keyword-like wrong secret, and a near miss of X's id next to X's exact secret / with no secret. The concrete
 			// string and wire encoding rotate through all forms over the block.
-			for meth := 0; meth < 4; meth++ {
-				rg := regT{Known: true, Meth: meth, App: 0, Grants: full(), HasKey: meth == 2}
+			for meth := 0; meth < 5; meth++ {
+				mv++
+				rg := regT{Known: true, Meth: meth, MV: mv, App: 0, Grants: full(), HasKey: meth == 2}
 				nm := func(p presT) {
 					p.BF, p.PF, p.IDF, p.AF = rot, rot, rot, rot
 					rot++
@@ -1304,6 +1364,29 @@ func systematic() []caseT {
 				nm(presT{Kind: pNearID, Slot: 2, B: sEmpty})
 				nm(presT{Kind: pAssert, A: 2})
 				nm(presT{Kind: pAssertWrongType})
+			}
+			// (7) Client.AuthMethod() returns a value outside the library's four constants (unset, client_secret_jwt, tls_client_auth,
+			// unknown strings, case variants of the constants) for a client WITH a stored secret: every value x the right secret in
+			// the header / in the form, client_id only, a wrong secret, a hollow Basic password
+			for v := range methOther {
+				rg := regT{Known: true, Meth: 4, MV: v, App: v % 3, Grants: full(), HasKey: v%2 == 0}
+				for _, pr := range []presT{{Kind: pBasic}, {Kind: pPost}, {Kind: pIDOnly}, {Kind: pBasic, B: sWrong}, {Kind: pBasic, B: sEmpty}} {
+					cs = append(cs, caseT{Router: router, Endpoint: x.e, Grant: x.g, Cfg: allOn, Reg: rg, Pres: pr, Tag: "block=method_value"})
+				}
+			}
+			// (8) the provider object handed to NewLegacyServer lacks the optional method JWTProfileVerifier (every optional
+			// interface the LegacyServer type-asserts on its provider): assertions valid / wrong / junk, with and without
+			// client_id, the fitting credential, an assertion of X next to the id of a secretless Y
+			bare := allOn
+			bare.NoJP = true
+			for meth := 0; meth < 5 && router == 1; meth++ {
+				mv++
+				rg := regT{Known: true, Meth: meth, MV: mv, App: 0, Grants: full(), HasKey: meth == 2 || meth == 0}
+				for _, pr := range []presT{fitting[meth], {Kind: pAssert}, {Kind: pAssertID}, {Kind: pAssertID, A: 3}, {Kind: pAssertID, A: 1}, {Kind: pAssert, A: 3},
+					{Kind: pAssertNoType}, {Kind: pXAssert, VM: 3, VG: true}, {Kind: pXAssert, VM: 2, VG: true}, {Kind: pAssertTypeOnly}} {
+					pr.AF = len(cs)
+					cs = append(cs, caseT{Router: 1, Endpoint: x.e, Grant: x.g, Cfg: bare, Reg: rg, Pres: pr, Tag: "block=bare_provider"})
+				}
 			}
 			// (6) near misses of the grant_type value itself (other case, surrounding white space, keyword), with the artefact
 			// and the registration of the real grant and a fitting credential
@@ -1356,20 +1439,20 @@ func enumerate(r drv.Rand, emitCase func(caseT)) {
 				grants = []int{5, 0, 1, 2, 3, 4, 6, 7, 8}
 			}
 			for _, g := range grants {
-				for meth := 0; meth < 4; meth++ {
+				for meth := 0; meth < 5; meth++ {
 					for app := r.IntN(3); app < 3; app += 3 { // drawn: no guard of the repaired code reads the application type
 						for _, p := range ps {
 							for flags := 0; flags < 8; flags++ {
 								for v := 0; v < 8; v++ { // v: known/registered/key/capability variants
 									c := caseT{Router: router, Endpoint: e, Grant: g, Pres: drawForms(r, p), Pl: drawPl(r), SecKind: drawSecKind(r)}
-									c.Pres.VM, c.Pres.VG = r.IntN(4), r.Bool()
+									c.Pres.VM, c.Pres.VG = r.IntN(5), r.Bool()
 									if r.Chance(1, 4) {
 										c.Prev = 1 + r.IntN(4)
 									}
 									if g == gUnknown && r.Chance(2, 3) {
 										c.GBase, c.GForm = r.IntN(6), 1+r.IntN(len(grantForms))
 									}
-									c.Cfg = cfgT{bits(flags, 0), bits(flags, 1), bits(flags, 2), r.Bool(), r.Bool(), r.Bool()}
+									c.Cfg = cfgT{bits(flags, 0), bits(flags, 1), bits(flags, 2), r.Bool(), r.Bool(), r.Bool(), r.Chance(1, 3)}
 									capOn := bits(v, 0)
 									switch grantOf(e, g) {
 									case gCC:
@@ -1383,7 +1466,7 @@ func enumerate(r drv.Rand, emitCase func(caseT)) {
 											continue
 										}
 									}
-									c.Reg = regT{Known: true, Meth: meth, App: app, HasKey: bits(v, 1)}
+									c.Reg = regT{Known: true, Meth: meth, MV: r.IntN(64), App: app, HasKey: bits(v, 1)}
 									for i := range c.Reg.Grants {
 										c.Reg.Grants[i] = r.Bool()
 									}
@@ -1397,7 +1480,7 @@ func enumerate(r drv.Rand, emitCase func(caseT)) {
 							}
 							// unknown client: once per presentation
 							c := caseT{Router: router, Endpoint: e, Grant: g, Pres: drawForms(r, p), Pl: drawPl(r), Cfg: cfgOf(r.IntN(64) | 7*r.IntN(2))}
-							c.Pres.VM, c.Pres.VG = r.IntN(4), r.Bool()
+							c.Pres.VM, c.Pres.VG = r.IntN(5), r.Bool()
 							c.Reg = regT{Known: false, Meth: meth, App: app, HasKey: r.Bool()}
 							emitCase(c)
 						}
